@@ -18,3 +18,18 @@ add("C06", "fault_enumeration",
     "Histories in both sync modes with rollover, compaction (with writers slipped into its lock-free windows through the verif yield hook), clean restarts and a second epoch after a recovery; at every FS-call boundary a family of admissible power-loss images (minimal, maximal, single-inode loses/keeps, PRNG prefixes with tears) is recovered by the real code and every key must hold its last-synced value or a later write.",
     "Power-loss model exactly as stated in the property. fs.File.Sync is taken to be fsync. Image family per boundary is a fixed adversarial subset plus PRNG samples, not all prefix combinations.",
     "DESIGN.md 4/C06")
+add("C04", "fault_enumeration",
+    "fault enumeration at runtime over chains of crash epochs: crash images of recorded executions are recovered, the recovery itself and the sessions after it are recorded and crashed again (depth 4), oracle = reference state carried across epochs",
+    "Trees of (session, crash point) epochs on the call-logging file system: selected crash images (all torn-tail shapes plus samples) are recovered twice (idempotence), every boundary and tear inside the recovering Open is crashed and recovered again, the session continues after the recovery with acknowledged writes, compaction with interleaved writers, clean restarts, and its crash images are judged against the reference carried over from the observed post-recovery state; repeated to depth 4.",
+    "Process-crash model of C03 applied repeatedly. The state read back after a recovery is treated as acknowledged from then on. Breadth is PRNG-sampled; the inside-recovery enumeration is exhaustive per selected image.",
+    "DESIGN.md 4/C04")
+add("C05", "fault_enumeration",
+    "runtime monitor + fault enumeration: writers placed deterministically inside compaction's lock-free windows via the verif yield hook, live reference-map read-backs after every call, crash-image enumeration of every FS call inside Compact",
+    "Compaction-heavy histories in which the harness itself performs Put/Delete/nested Compact/read-backs at compaction's yield points (after the pick, after sealing, between any two records, before removal of the source); every read is compared with the acknowledged writes, and every crash point inside each Compact (including inside the writers slipped into it) plus every later call boundary is recovered and compared with the reference state before/after the innermost call in flight. Key classes hit by window writes (record still in the source, already promoted, elsewhere, absent) are measured.",
+    "A callback at a yield point where compaction holds no lock stands for another goroutine scheduled there (real-goroutine interleavings are C07/C10). Process-crash model of C03.",
+    "DESIGN.md 4/C05")
+add("C09", "fault_enumeration",
+    "fault enumeration at runtime: power-loss images from the return of Close through every FS call of the next Open, recovered by the real Open; oracle = exactly the closed contents",
+    "Histories with several clean Close/Open cycles (after growth, chains, rollover, compaction, recovery, on empty databases, idle sessions; both sync modes); for each Close the admissible power-loss images at the instant Close returned and at every file-system-call boundary of the following Open are opened by the real code and must read back exactly the closed contents.",
+    "Power-loss model of the property. fs.File.Sync is taken to be fsync.",
+    "DESIGN.md 4/C09")
